@@ -115,7 +115,11 @@ func (e *EventEmitter) handleSubscriber(ctx context.Context, sub event.Subscript
 			select {
 			case e = <-sub.Out():
 			case <-ctx.Done():
+				// signal under the lock: the drainer checks ctx.Err() and then waits,
+				// a signal sent between the two would be lost and it would wait forever
+				condProcess.L.Lock()
 				condProcess.Signal()
+				condProcess.L.Unlock()
 				return
 			}
 
